@@ -9,7 +9,6 @@ import (
 	"sort"
 	"strconv"
 	"strings"
-	"sync"
 	"sync/atomic"
 	"time"
 )
@@ -23,24 +22,90 @@ import (
 // reported as a violation; when no goroutine is in library code it is the
 // harness that is broken (exit 2).
 
+// Call slots: every library call the harness makes through its wrappers
+// (Exec, BuildExpr, Unmarshal, the readers, CreateInMemory) occupies a slot
+// for its duration. The watchdog uses them to name the inputs in flight and to
+// notice a call that never returns.
+type callSlot struct {
+	state atomic.Uint64 // 0 free, 1 being filled, >=2 active (a generation number)
+	kind  string
+	arg   interface{}
+	_     [24]byte
+}
+
+const nSlots = 1024
+
+var (
+	slots      [nSlots]callSlot
+	slotHint   atomic.Uint32
+	slotGen    atomic.Uint64
+	peakHeap   atomic.Uint64 // highest sampled heap size
+	callsTotal atomic.Uint64
+)
+
+// Enter occupies a slot for a library call (kind: which entry point; arg: its
+// input - a string, or something with GetString()); Leave frees it. Cost: a
+// few atomic operations, no allocation for pointer or string arguments kept
+// by the caller.
+func Enter(kind string, arg interface{}) int {
+	if raceEnabled {
+		return -1
+	}
+	i := int(slotHint.Add(1))
+	for k := 0; k < nSlots; k++ {
+		s := &slots[(i+k)%nSlots]
+		if s.state.Load() == 0 && s.state.CompareAndSwap(0, 1) {
+			s.kind, s.arg = kind, arg
+			s.state.Store(slotGen.Add(1) + 1)
+			return (i + k) % nSlots
+		}
+	}
+	return -1
+}
+
+func Leave(i int) {
+	if i >= 0 {
+		slots[i].state.Store(0)
+	}
+}
+
+// Track is Enter/Leave for use with defer.
+func Track(kind, input string) func() {
+	i := Enter(kind, input)
+	return func() { Leave(i) }
+}
+
 type inflightRec struct {
-	start time.Time
+	ticks int
 	kind  string
 	desc  string
 }
 
-var inflight sync.Map // *inflightRec -> struct{}
+func describeArg(a interface{}) string {
+	defer func() { recover() }()
+	switch v := a.(type) {
+	case string:
+		return v
+	case interface{ GetString() string }:
+		return v.GetString()
+	case fmt.Stringer:
+		return v.String()
+	}
+	return fmt.Sprintf("%v", a)
+}
 
-var peakHeap atomic.Uint64 // highest sampled heap size
-
-// Track registers a library call on an input (desc: short, printable) for the
-// duration of the call; the returned function ends the registration. Only
-// used around calls whose cost is far above the registration's (document
-// reads), never per Exec.
-func Track(kind, input string) func() {
-	r := &inflightRec{start: time.Now(), kind: kind, desc: input}
-	inflight.Store(r, struct{}{})
-	return func() { inflight.Delete(r) }
+// CallLimitTicks: a call that stays in its slot for this many watchdog
+// seconds (XV_CALL_LIMIT_S, default 240) does not return. Ticks are counted by
+// the watchdog itself, so time during which the whole process is stopped does
+// not count.
+func CallLimitTicks() int {
+	n := 240
+	if s := os.Getenv("XV_CALL_LIMIT_S"); s != "" {
+		if v, err := strconv.Atoi(s); err == nil && v > 0 {
+			n = v
+		}
+	}
+	return n
 }
 
 // MemLimitBytes is the live-heap limit (XV_MEM_LIMIT_GB, default 16).
@@ -54,73 +119,118 @@ func MemLimitBytes() uint64 {
 	return uint64(gb * (1 << 30))
 }
 
+// snapshot lists the calls in flight, longest-running first.
+func snapshot(seen *[nSlots]struct {
+	gen   uint64
+	ticks int
+}) []inflightRec {
+	var recs []inflightRec
+	for i := range slots {
+		st := slots[i].state.Load()
+		if st < 2 {
+			continue
+		}
+		kind, arg := slots[i].kind, slots[i].arg
+		if slots[i].state.Load() != st {
+			continue // re-used while being read
+		}
+		recs = append(recs, inflightRec{ticks: seen[i].ticks, kind: kind, desc: describeArg(arg)})
+	}
+	sort.Slice(recs, func(i, j int) bool { return recs[i].ticks > recs[j].ticks })
+	return recs
+}
+
 // StartWatchdog starts the watchdog for check c (nil in helper processes: the
-// process then exits with status 3 and a MEMORY line, which its parent reports).
+// process then exits with status 3 and a MEMORY / HANG line, which its parent
+// reports).
 func StartWatchdog(c *Check, id string) {
 	limit := MemLimitBytes()
+	callLimit := CallLimitTicks()
 	sample := []metrics.Sample{{Name: "/memory/classes/heap/objects:bytes"}}
+	var seen [nSlots]struct {
+		gen   uint64
+		ticks int
+	}
+	report := func(what, logName, headline string) {
+		buf := make([]byte, 8<<20)
+		n := runtime.Stack(buf, true)
+		stacks := string(buf[:n])
+		recs := snapshot(&seen)
+		var sb strings.Builder
+		sb.WriteString(headline + "\n")
+		for i, r := range recs {
+			if i == 8 {
+				break
+			}
+			d := r.desc
+			if len(d) > 400 {
+				d = d[:400] + "..."
+			}
+			fmt.Fprintf(&sb, "in flight for %d s: %s %q\n", r.ticks, r.kind, d)
+		}
+		sb.WriteString("\n")
+		sb.WriteString(stacks)
+		inLib := strings.Contains(stacks, "github.com/ChrisTrenkamp/xsel/") || strings.Contains(stacks, "github.com/ChrisTrenkamp/xsel.")
+		if c == nil {
+			fmt.Printf("%s helper process: %s (library code on a stack: %v)\n%s", what, headline, inLib, firstLines(sb.String(), 12))
+			os.Exit(3)
+		}
+		if !inLib {
+			fmt.Fprintf(os.Stderr, "HARNESS: %s: %s with no goroutine inside library code; the check is broken\n%s", id, headline, firstLines(sb.String(), 40))
+			os.Exit(2)
+		}
+		dir := filepath.Join(OutDir, "replays")
+		os.MkdirAll(dir, 0o755)
+		p := filepath.Join(dir, fmt.Sprintf("%s-%s-%d.log", id, logName, os.Getpid()))
+		os.WriteFile(p, []byte(sb.String()), 0o644)
+		oldest := "(no registered input; see the stacks)"
+		if len(recs) > 0 {
+			d := recs[0].desc
+			if len(d) > 300 {
+				d = d[:300] + "..."
+			}
+			oldest = fmt.Sprintf("%s %q", recs[0].kind, d)
+		}
+		c.mu.Lock()
+		c.nviol++
+		c.violations = append([]string{fmt.Sprintf("VIOLATION property=%s replay=%s", id, p)}, c.violations...)
+		c.Exhaustive = false
+		c.mu.Unlock()
+		fmt.Fprintf(os.Stderr, "-- %s: %s; longest-running library call: %s\n", id, headline, oldest)
+		os.Exit(c.Finish())
+	}
 	go func() {
+		sub := 0
 		for {
 			time.Sleep(200 * time.Millisecond)
 			metrics.Read(sample)
-			if sample[0].Value.Kind() != metrics.KindUint64 {
+			if sample[0].Value.Kind() == metrics.KindUint64 {
+				heap := sample[0].Value.Uint64()
+				if heap > peakHeap.Load() {
+					peakHeap.Store(heap)
+				}
+				if heap >= limit {
+					report("MEMORY", "memory", fmt.Sprintf("the library keeps allocating without returning: the live heap (%d MB) passed the limit of %d MB while library calls were in flight", heap>>20, limit>>20))
+				}
+			}
+			if sub++; sub%5 != 0 {
 				continue
 			}
-			if v := sample[0].Value.Uint64(); v > peakHeap.Load() {
-				peakHeap.Store(v)
-			}
-			if sample[0].Value.Uint64() < limit {
-				continue
-			}
-			heap := sample[0].Value.Uint64()
-			buf := make([]byte, 8<<20)
-			n := runtime.Stack(buf, true)
-			stacks := string(buf[:n])
-			var recs []*inflightRec
-			inflight.Range(func(k, _ interface{}) bool { recs = append(recs, k.(*inflightRec)); return true })
-			sort.Slice(recs, func(i, j int) bool { return recs[i].start.Before(recs[j].start) })
-			var sb strings.Builder
-			fmt.Fprintf(&sb, "live heap %d MB exceeds the limit of %d MB\n", heap>>20, limit>>20)
-			for i, r := range recs {
-				if i == 8 {
-					break
+			// once per second: a slot that stays occupied by the same call
+			for i := range slots {
+				st := slots[i].state.Load()
+				switch {
+				case st < 2:
+					seen[i].gen, seen[i].ticks = 0, 0
+				case st == seen[i].gen:
+					seen[i].ticks++
+					if seen[i].ticks >= callLimit {
+						report("HANG", "hang", fmt.Sprintf("a library call has not returned for %d s (measured by the watchdog's own ticks)", seen[i].ticks))
+					}
+				default:
+					seen[i].gen, seen[i].ticks = st, 0
 				}
-				d := r.desc
-				if len(d) > 400 {
-					d = d[:400] + "..."
-				}
-				fmt.Fprintf(&sb, "in flight for %.1fs: %s %q\n", time.Since(r.start).Seconds(), r.kind, d)
 			}
-			sb.WriteString("\n")
-			sb.WriteString(stacks)
-			inLib := strings.Contains(stacks, "github.com/ChrisTrenkamp/xsel/") || strings.Contains(stacks, "github.com/ChrisTrenkamp/xsel.")
-			if c == nil {
-				fmt.Printf("MEMORY helper process exceeded the heap limit (library code on a stack: %v)\n%s", inLib, firstLines(sb.String(), 12))
-				os.Exit(3)
-			}
-			if !inLib {
-				fmt.Fprintf(os.Stderr, "HARNESS: %s: the check exceeded its heap limit with no goroutine inside library code; the check is broken\n%s", id, firstLines(sb.String(), 40))
-				os.Exit(2)
-			}
-			dir := filepath.Join(OutDir, "replays")
-			os.MkdirAll(dir, 0o755)
-			p := filepath.Join(dir, fmt.Sprintf("%s-memory-%d.log", id, os.Getpid()))
-			os.WriteFile(p, []byte(sb.String()), 0o644)
-			oldest := "(no registered input; see the stacks)"
-			if len(recs) > 0 {
-				oldest = recs[0].desc
-				if len(oldest) > 300 {
-					oldest = oldest[:300] + "..."
-				}
-				oldest = fmt.Sprintf("%s %q", recs[0].kind, oldest)
-			}
-			c.mu.Lock()
-			c.nviol++
-			c.violations = append([]string{fmt.Sprintf("VIOLATION property=%s replay=%s", id, p)}, c.violations...)
-			c.Exhaustive = false
-			c.mu.Unlock()
-			fmt.Fprintf(os.Stderr, "-- %s: the library keeps allocating without returning: the live heap passed %d MB while library calls were in flight; longest-running registered input: %s\n", id, limit>>20, oldest)
-			os.Exit(c.Finish())
 		}
 	}()
 }
